@@ -32,7 +32,10 @@ CONSTANTS MaxReq,        \* requests per history
           QCap,          \* max_ind_queue_size (0 = unbounded)
           Gating,        \* the tester may hold the callback once per history
           QfRet,         \* `return` after the queue.Full error response
-          LexG           \* guards of the reader's conversions: full|eol|prefix
+          LexG,          \* guards of the reader's conversions: full|eol|prefix
+          Echo,          \* characters the response writer accepts: xml10|restricted
+          PName,         \* NewIndication lookup: exact|cicheck
+          Deep           \* RecursionError of the reader: caught|leaks
 
 VARIABLES hist,      \* request classes sent so far (one connection each)
           conn,      \* per connection: [st, obs, env, forced];
@@ -45,7 +48,8 @@ VARIABLES hist,      \* request classes sent so far (one connection each)
                      \* peerclose(request number)
 vars == <<hist, conn, queue, delivered, gate, inflight, script>>
 
-Fl == [san |-> San, clchk |-> ClChk, qfret |-> QfRet, lexg |-> LexG]
+Fl == [san |-> San, clchk |-> ClChk, qfret |-> QfRet, lexg |-> LexG,
+       echo |-> Echo, pname |-> PName, deep |-> Deep]
 
 Init == /\ hist = << >> /\ conn = << >> /\ queue = << >> /\ delivered = << >>
         /\ gate = "open" /\ inflight = 0 /\ script = << >>
